@@ -1430,14 +1430,16 @@ class C06(Check):
             "root_backup, root.old), relative paths with 0-6 '..' segments, globs crossing symlinked directories; root = the tree "
             "(80%) or '/' with prefixed paths (20%); 1-12 specs over all nine declarative factories + an in-memory "
             "DatasourceProvider, save_as in file and directory form; deny list of files, commands (exact or prefix + space) and "
-            "component names drawn from what the spec set touches; oracle = (a) no FileProvider whose real location is outside "
+            "component names drawn from what the spec set touches, in 25% mixed with symbolic DefaultSpecs names at any position; "
+            "in 15% a layout history: after the collection a directory the specs read from becomes a link leaving the root and "
+            "the SAME context object evaluates the spec set again; oracle = (a) no FileProvider whose real location is outside "
             "the root, (b) no open / Popen / executed command matching the deny list, (c) every write-open, mkdir, rename, "
             "symlink and cp destination between persister registration and the return of run_all resolves beneath the output "
             "directory + before/after walk of the scratch area; non-trivial = >= 2 specs; distinct = digest of (results, I/O events, "
             "executed commands)")
     real_vs_stub = COMMON_REAL
     assumptions = [
-        "TOCTOU (a link swapped between validate() and the lazy load()) is not simulated: the property quantifies over layouts, not concurrent mutation",
+        "TOCTOU (a link swapped between validate() and the lazy load() of one provider) is not simulated; a layout that changes between two evaluations on one context object is",
         "deny-list entries name canonical spec paths; aliasing of a denied file through a differently named symlink is not asserted",
         "checks run as root: the 'unreadable file' branch of validate() cannot be produced on a real file system",
         "cleaner reports (/tmp/*.csv, rhsm facts) are written by generate_report, outside the persist window and outside the property",
@@ -1462,7 +1464,9 @@ class C11(Check):
     thorough = dict(runs=1500000, wall=1500)
     rule = ("case = simulated host + spec set as in C06 (no containment tricks) with rich content: lines over printable ASCII, "
             "Latin-1, CJK, astral and zero-width code points, empty lines (leading, inner, several trailing), lines of up to 100k "
-            "characters, no character str.splitlines treats as a break; all provider kinds (text file, raw file, command, "
+            "characters, 1.2% contents of 4097-24577 lines with empty lines on power-of-two boundaries, the characters "
+            "str.splitlines() breaks at (FF, VT, NEL, FS, U+2028) inside lines but no CR / LF; all provider kinds (text file, a "
+            "user sub-class of TextFileProvider, raw file, command, "
             "container file/command, in-memory datasource), save_as renamings, multi-output specs with 0-3 elements, failing "
             "commands / missing files / crashing datasources; fault sequences: (1) during persist the n-th write-open or mkdir "
             "below the archive fails with ENOSPC/EIO (audit hook), a data file write fails or is silently cut after k bytes, the "
